@@ -4,6 +4,7 @@ import (
 	"encoding/binary"
 	"errors"
 	"fmt"
+	"math"
 	"strings"
 )
 
@@ -212,6 +213,9 @@ func (a ArchiveInfo) validate() error {
 	}
 	if a.numberOfPoints <= 0 {
 		return errors.New("number of points must be positive")
+	}
+	if int64(a.secondsPerPoint)*int64(a.numberOfPoints) > math.MaxInt32 {
+		return errors.New("retention must be representable in 31 bits")
 	}
 	return nil
 }
